@@ -110,11 +110,18 @@ fn check_node(n: SddPtr, info: &ShapeInfo, memo: &mut SddMemo, st: &mut Stats) -
 }
 
 pub fn run_case(case: &Case, st: &mut Stats) -> CaseResult {
-    let b = make_builder(&case.vt, true, case.table_cap);
+    let (vt, emb) = crate::props::c03::effective_vtree(case);
+    let b = make_builder(&vt, true, case.table_cap);
     let grow0 = rsdd::verif_hooks::table_grows();
-    let shape = case.vt.shape();
+    let shape = vt.shape();
     let info = ShapeInfo::new(&shape);
-    let mut run = SddRun::new(&b, shape.leaves());
+    let mut run = match emb {
+        Some(labels) => {
+            st.bump("case.embedded_in_a_larger_vtree");
+            SddRun::new_embedded(&b, labels)
+        }
+        None => SddRun::new(&b, shape.leaves()),
+    };
     let mut canon: BTreeMap<Tt, (SddPtr, usize)> = BTreeMap::new();
     for (i, (p, t)) in run.pool.iter().enumerate() {
         canon.insert(*t, (*p, i));
@@ -222,7 +229,7 @@ pub fn run_case(case: &Case, st: &mut Stats) -> CaseResult {
                 for val in [false, true] {
                     let c = b.condition(p, rsdd::repr::VarLabel::new_usize(v), val);
                     let want = sdd_tt_m(c, &mut memo);
-                    if want != t.cofactor(v, val) {
+                    if want != t.cofactor(run.o(v), val) {
                         st.bump("result_differs_from_oracle_function(C03's concern)");
                     }
                     for n in sdd_nodes(c) {
@@ -283,7 +290,7 @@ impl SubCheckT for WellFormed {
     type Case = Case;
     const NAME: &'static str = "wellformed";
     const REPLAY_ATTEMPTS: u32 = 20;
-    const RULE: &'static str = "C03-style histories on the compressing builder (unique tables of 1..32 slots or default), with the extra op Rebuild(i) = re-derive entry i from its truth table as a disjunction of cubes in a shuffled variable order, and the op Dense(bits) = build the function with that truth table by Shannon expansion (wide decision nodes, >20 elements). For every node reachable from every result, with left/right variable sets taken from the harness's own in-order numbering of the vtree: primes non-false, pairwise disjoint, exhaustive (truth tables); variables syntactically reachable in primes within the left set and in subs within the right set; subs pairwise distinct (pointer and function); no {(T,s)}, no {(p,T),(!p,F)}, binary nodes with distinct children; and equal truth tables => pointer equality (results, rebuilds and negations); 12 decision-node results of each history (the first 8, then those wider than any conditioned before) are additionally conditioned on every (variable, value) and the cofactors are held to the same function / node / canonicity checks. Non-trivial: a non-binary decision node with >=3 elements or decision nodes at >=2 vtree positions";
+    const RULE: &'static str = "C03-style histories on the compressing builder (unique tables of 1..32 slots or default; in one case of six the <=8 variables are embedded at random leaves of a vtree with 9..120 leaves), with the extra op Rebuild(i) = re-derive entry i from its truth table as a disjunction of cubes in a shuffled variable order, and the op Dense(bits) = build the function with that truth table by Shannon expansion (wide decision nodes, >20 elements). For every node reachable from every result, with left/right variable sets taken from the harness's own in-order numbering of the vtree: primes non-false, pairwise disjoint, exhaustive (truth tables); variables syntactically reachable in primes within the left set and in subs within the right set; subs pairwise distinct (pointer and function); no {(T,s)}, no {(p,T),(!p,F)}, binary nodes with distinct children; and equal truth tables => pointer equality (results, rebuilds and negations); 12 decision-node results of each history (the first 8, then those wider than any conditioned before) are additionally conditioned on every (variable, value) and the cofactors are held to the same function / node / canonicity checks. Non-trivial: a non-binary decision node with >=3 elements or decision nodes at >=2 vtree positions";
     fn cases(tier: Tier) -> u32 {
         tier.pick(12_000, 150_000)
     }
@@ -316,8 +323,9 @@ impl SubCheckT for WellFormed {
             prop_oneof![2 => Just(None), 6 => (1u16..=32).prop_map(Some)],
             proptest::collection::vec(sop_strategy_ext(true, true, true), 0..=24),
         );
-        prop_oneof![12 => general.boxed(), 1 => wide.boxed(), 1 => sparse.boxed()]
-            .prop_map(|(vt, table_cap, ops)| Case {
+        (prop_oneof![12 => general.boxed(), 1 => wide.boxed(), 1 => sparse.boxed()], crate::props::c03::embed_strategy())
+            .prop_map(|((vt, table_cap, ops), embed)| Case {
+                embed: if vt.contiguous() { embed } else { None },
                 vt,
                 compress: true,
                 table_cap,
@@ -337,7 +345,7 @@ pub fn property() -> Property {
         subs: vec![sub::<WellFormed>()],
         fuzz: vec![FuzzSpec { target: "sdd_ops", runs: 6000, max_len: 300 }],
         assumptions: vec![
-            "compressing builder only (compression switched on); functions over <= 8 variables",
+            "compressing builder only (compression switched on); functions of <= 8 variables (vtrees of up to 120 leaves)",
             "the library's is_canonical/is_compressed/is_trimmed are recorded in the histogram but never decide pass/fail",
         ],
         nt_floor_percent: 15,
